@@ -1204,6 +1204,357 @@ func (in *integ) partCEstimates() {
 }
 
 // ---------------------------------------------------------------------------
+// (e) submission sequences through the real path, with re-submission by the
+// same validator (same value / different value, any number of times, before
+// and after the election): a tree of forks; every node is one signed tx (or
+// the consensus end-block functions), and at every node the election /
+// attestation is run on a throw-away fork and compared with the reference
+// over DISTINCT submitters.
+
+type caseE struct {
+	Part string   `json:"part"`
+	Kind string   `json:"kind"` // seq-estimates | seq-evidence
+	Path []string `json:"path"` // "v2=X" (validator 2 submits value X), "E" (consensus end-block functions)
+}
+
+var seqEst = []uint64{50_000, 70_000} // X, Y
+var seqNames = [2][2]string{{"X", "Y"}, {"A", "B"}}
+
+type seqOp struct {
+	V, X  int // validator 0..4 (4 = outside the snapshot), value index 0/1; V < 0: end-block
+	Label string
+}
+
+func seqOps(kind int) []seqOp {
+	var ops []seqOp
+	for v := 0; v < 5; v++ {
+		for x := 0; x < 2; x++ {
+			ops = append(ops, seqOp{V: v, X: x, Label: fmt.Sprintf("v%d=%s", v, seqNames[kind][x])})
+		}
+	}
+	return append(ops, seqOp{V: -1, Label: "E"})
+}
+
+type estGhost struct {
+	Sub     [5][]uint64 // values of the accepted (tx OK) submissions per validator
+	Elected uint64      // as stored after a committed end-block
+}
+
+func (g estGhost) clone() estGhost {
+	n := g
+	for i := range g.Sub {
+		n.Sub[i] = append([]uint64(nil), g.Sub[i]...)
+	}
+	return n
+}
+
+func (in *integ) seqFail(kind string, path []string) func(sig, format string, a ...interface{}) {
+	return func(sig, format string, a ...interface{}) {
+		cs := caseE{Part: "e", Kind: kind, Path: append([]string(nil), path...)}
+		in.c.r.Violate(sig, fmt.Sprintf(format, a...)+fmt.Sprintf("\nsequence: %v (stakes v0..v3=%v, snapshot total %s, v4 bonded outside the snapshot; X=%d Y=%d; E = CheckAndProcessEstimatedMessages + CheckAndProcessAttestedMessages)", path, sharesStr(in.stakes), in.total, seqEst[0], seqEst[1]), cs)
+	}
+}
+
+// estCheck runs the election on a throw-away fork of ctx and judges it.
+func (in *integ) estCheck(ctx sdk.Context, g estGhost, path []string) {
+	w := in.w
+	fail := in.seqFail("seq-estimates", path)
+	c := world.Fork(ctx)
+	err, panicked := world.Protect(func() error { return w.App.ConsensusKeeper.CheckAndProcessEstimatedMessages(c) })
+	in.c.r.Evaluations++
+	in.c.count("e_estimate_nodes")
+	if panicked || err != nil {
+		fail("estimate:panic-or-error:CheckAndProcessEstimatedMessages", "%v (panic=%v)", err, panicked)
+		return
+	}
+	m, _, err := in.findMsg(c, in.turnQ, in.slcID)
+	if err != nil || m == nil {
+		fail("estimate:message-lost:CheckAndProcessEstimatedMessages", "message gone: %v", err)
+		return
+	}
+	got := m.GetGasEstimate()
+	if g.Elected != 0 {
+		if got != g.Elected {
+			fail("estimate:changed-after-election:CheckAndProcessEstimatedMessages", "estimate %d was elected, now %d", g.Elected, got)
+		}
+		return
+	}
+	sIn := new(big.Int)
+	var who []int
+	for i, s := range g.Sub {
+		if len(s) == 0 {
+			continue
+		}
+		who = append(who, i)
+		if i < 4 {
+			sIn.Add(sIn, in.stakes[i])
+		}
+	}
+	q := len(who) > 0 && quorum(sIn, in.total)
+	stored := make([]string, 0, len(m.GetGasEstimates()))
+	for _, e := range m.GetGasEstimates() {
+		for i, v := range w.Vals {
+			if e.ValAddress.Equals(v.ValAddr) {
+				stored = append(stored, fmt.Sprintf("v%d:%d", i, e.Value))
+			}
+		}
+	}
+	switch {
+	case got == 0 && !q:
+		in.c.count("e_estimate_nodes_refused")
+	case got == 0:
+		fail("estimate:two-thirds-but-not-elected:CheckAndProcessEstimatedMessages", "distinct submitters %v hold %s of %s snapshot shares, nothing elected (stored estimates %v)", who, sIn, in.total, stored)
+	case !q:
+		fail("estimate:elected-without-two-thirds-of-distinct-submitters:CheckAndProcessEstimatedMessages", "estimate %d elected; the distinct submitters %v hold only %s of %s snapshot shares (stored estimates %v)", got, who, sIn, in.total, stored)
+	default:
+		in.c.count("e_estimate_nodes_elected")
+		// one value per distinct submitter: any of the values it got accepted
+		ok := false
+		var meds []string
+		choice := make([]uint64, len(who))
+		var rec func(k int)
+		rec = func(k int) {
+			if k == len(who) {
+				med, _, _ := refMedian(choice)
+				meds = append(meds, med.String())
+				if med.IsUint64() && med.Uint64() == got {
+					ok = true
+				}
+				return
+			}
+			seen := map[uint64]bool{}
+			for _, v := range g.Sub[who[k]] {
+				if !seen[v] {
+					seen[v] = true
+					choice[k] = v
+					rec(k + 1)
+				}
+			}
+		}
+		rec(0)
+		if !ok {
+			fail("estimate:not-median-of-one-value-per-submitter:CheckAndProcessEstimatedMessages", "elected %d; medians over one accepted value per distinct submitter: %v (stored estimates %v)", got, meds, stored)
+		}
+	}
+}
+
+func (in *integ) estApply(ctx sdk.Context, g *estGhost, op seqOp) {
+	w := in.w
+	if op.V < 0 {
+		_, _ = world.Protect(func() error {
+			if err := w.App.ConsensusKeeper.CheckAndProcessEstimatedMessages(ctx); err != nil {
+				return err
+			}
+			return w.App.ConsensusKeeper.CheckAndProcessAttestedMessages(ctx)
+		})
+		if m, _, _ := in.findMsg(ctx, in.turnQ, in.slcID); m != nil && g.Elected == 0 {
+			g.Elected = m.GetGasEstimate()
+		}
+		in.c.cnt["c_transitions"]++
+		return
+	}
+	res := w.DeliverTx(ctx, []*world.Actor{w.Vals[op.V].Actor}, world.Estimate(w.Vals[op.V], in.turnQ, in.slcID, seqEst[op.X]))
+	in.c.cnt["c_transitions"]++
+	if res.OK() {
+		g.Sub[op.V] = append(g.Sub[op.V], seqEst[op.X])
+		if len(g.Sub[op.V]) > 1 {
+			in.c.count("e_resubmissions_accepted")
+		}
+	} else if len(g.Sub[op.V]) > 0 {
+		in.c.count("e_resubmissions_rejected")
+	}
+}
+
+type evGhost struct {
+	Latest  [5]int // 0 none, 1 A, 2 B: latest accepted submission
+	Removed bool
+}
+
+func (in *integ) evCheck(ctx sdk.Context, g evGhost, path []string) {
+	w := in.w
+	fail := in.seqFail("seq-evidence", path)
+	vals := [3]proto.Message{nil, refA, refB}
+	in.c.r.Evaluations++
+	in.c.count("e_evidence_nodes")
+	m, _, err := in.findMsg(ctx, in.refQ, in.refID)
+	if err != nil || m == nil {
+		fail("harness:message-lost-before-processing", "message not in queue: %v", err)
+		return
+	}
+	nsub := 0
+	for i, a := range g.Latest {
+		if a == 0 {
+			continue
+		}
+		nsub++
+		cnt := 0
+		for _, e := range m.GetEvidence() {
+			if e.ValAddress.Equals(w.Vals[i].ValAddr) {
+				cnt++
+				want := wireAny(vals[a])
+				if e.Proof.TypeUrl != want.TypeUrl || !bytes.Equal(e.Proof.Value, want.Value) {
+					fail("resubmission:stored-evidence-not-latest:AddEvidence", "stored evidence of v%d is not its latest submission", i)
+				}
+			}
+		}
+		if cnt != 1 {
+			fail("resubmission:validator-stored-more-than-once:AddEvidence", "v%d has %d evidence entries on the message, want 1", i, cnt)
+		}
+	}
+	if len(m.GetEvidence()) != nsub {
+		fail("resubmission:evidence-count:AddEvidence", "message holds %d evidence entries for %d distinct submitters", len(m.GetEvidence()), nsub)
+	}
+	want, sA, sB, _ := refWinner(in.stakes, g.Latest[:4])
+	c := world.Fork(ctx)
+	before := w.StoreDump(c, "evm", nil)
+	err, panicked := world.Protect(func() error { return w.App.ConsensusKeeper.CheckAndProcessAttestedMessages(c) })
+	if panicked || err != nil {
+		fail("attest:panic-or-error:CheckAndProcessAttestedMessages", "%v (panic=%v)", err, panicked)
+		return
+	}
+	after, _, _ := in.findMsg(c, in.refQ, in.refID)
+	ci, _ := w.App.EvmKeeper.GetChainInfo(c, ref)
+	if want == 0 {
+		in.c.count("e_evidence_nodes_refused")
+		if after == nil {
+			fail("attest:removed-without-two-thirds:reference-block", "message removed; latest submissions of distinct snapshot validators: A holds %s, B holds %s of %s", sA, sB, in.total)
+		} else if d := world.DiffDumps(before, w.StoreDump(c, "evm", nil)); len(d) != 0 {
+			fail("attest:effects-without-two-thirds:reference-block", "message kept but evm state changed: %v", d)
+		}
+		return
+	}
+	in.c.count("e_evidence_nodes_declared")
+	wv := vals[want].(*evmtypes.ReferenceBlockAttestationRes)
+	if after != nil {
+		fail("attest:two-thirds-not-processed:reference-block", "message still queued; value %d holds 2/3 (A %s, B %s of %s)", want, sA, sB, in.total)
+	} else if ci.ReferenceBlockHeight != wv.BlockHeight || ci.ReferenceBlockHash != wv.BlockHash {
+		fail("attest:wrong-effect:reference-block", "chain reference block is (%d,%s), 2/3 supplied (%d,%s)", ci.ReferenceBlockHeight, ci.ReferenceBlockHash, wv.BlockHeight, wv.BlockHash)
+	}
+}
+
+func (in *integ) evApply(ctx sdk.Context, g *evGhost, op seqOp) {
+	w := in.w
+	in.c.cnt["c_transitions"]++
+	if op.V < 0 {
+		_, _ = world.Protect(func() error {
+			if err := w.App.ConsensusKeeper.CheckAndProcessEstimatedMessages(ctx); err != nil {
+				return err
+			}
+			return w.App.ConsensusKeeper.CheckAndProcessAttestedMessages(ctx)
+		})
+		m, _, _ := in.findMsg(ctx, in.refQ, in.refID)
+		g.Removed = m == nil
+		return
+	}
+	vals := [3]proto.Message{nil, refA, refB}
+	if res := in.evidenceTx(ctx, w.Vals[op.V], in.refQ, in.refID, vals[op.X+1]); res.OK() {
+		if g.Latest[op.V] != 0 {
+			in.c.count("e_resubmissions_accepted")
+		}
+		g.Latest[op.V] = op.X + 1
+	}
+}
+
+// seqTree explores every op sequence up to maxDepth (depth-first over forks).
+func (in *integ) seqTree(kind int, maxDepth int) {
+	ops := seqOps(kind)
+	shardIdx := 0
+	var recE func(ctx sdk.Context, g estGhost, path []string)
+	var recV func(ctx sdk.Context, g evGhost, path []string)
+	mine := func(depth int) (check, descend bool) {
+		if in.c.late() {
+			return false, false
+		}
+		switch {
+		case depth < 2:
+			return in.c.shard == 0, true
+		case depth == 2:
+			shardIdx++
+			ok := shardIdx%in.c.nshards == in.c.shard
+			return ok, ok
+		}
+		return true, true
+	}
+	recE = func(ctx sdk.Context, g estGhost, path []string) {
+		check, descend := mine(len(path))
+		if check {
+			in.estCheck(ctx, g, path)
+			in.c.r.DistinctN++
+		}
+		if !descend || len(path) == maxDepth {
+			return
+		}
+		for _, op := range ops {
+			c, ng := world.Fork(ctx), g.clone()
+			in.estApply(c, &ng, op)
+			recE(c, ng, append(path[:len(path):len(path)], op.Label))
+		}
+	}
+	recV = func(ctx sdk.Context, g evGhost, path []string) {
+		if g.Removed {
+			return
+		}
+		check, descend := mine(len(path))
+		if check {
+			in.evCheck(ctx, g, path)
+			in.c.r.DistinctN++
+		}
+		if !descend || len(path) == maxDepth {
+			return
+		}
+		for _, op := range ops {
+			c, ng := world.Fork(ctx), g
+			in.evApply(c, &ng, op)
+			recV(c, ng, append(path[:len(path):len(path)], op.Label))
+		}
+	}
+	if kind == 0 {
+		recE(debugCtx(world.Fork(in.baseSLC)), estGhost{}, nil)
+	} else {
+		recV(debugCtx(world.Fork(in.baseRef)), evGhost{}, nil)
+	}
+}
+
+func (in *integ) partE() {
+	depth := 4
+	if in.c.r.Thorough() {
+		depth = 5
+	}
+	in.seqTree(0, depth)
+	in.seqTree(1, depth)
+}
+
+// replaySeq re-executes one path, judging every node on it.
+func (in *integ) replaySeq(cs caseE) {
+	kind := 0
+	if cs.Kind == "seq-evidence" {
+		kind = 1
+	}
+	byLabel := map[string]seqOp{}
+	for _, op := range seqOps(kind) {
+		byLabel[op.Label] = op
+	}
+	if kind == 0 {
+		ctx, g := debugCtx(world.Fork(in.baseSLC)), estGhost{}
+		in.estCheck(ctx, g, nil)
+		for i, l := range cs.Path {
+			in.estApply(ctx, &g, byLabel[l])
+			in.estCheck(ctx, g, cs.Path[:i+1])
+		}
+		return
+	}
+	ctx, g := debugCtx(world.Fork(in.baseRef)), evGhost{}
+	in.evCheck(ctx, g, nil)
+	for i, l := range cs.Path {
+		in.evApply(ctx, &g, byLabel[l])
+		if g.Removed {
+			return
+		}
+		in.evCheck(ctx, g, cs.Path[:i+1])
+	}
+}
+
+// ---------------------------------------------------------------------------
 
 func main() {
 	replay := flag.String("replay", "", "replay file")
@@ -1225,6 +1576,7 @@ func run(r *report.Run, shard, nshards int, replayFile string) {
 		"(a) VerifyEvidence: n=1..4 snapshot validators x shares^n over {1,2,3,5,10^18,2^62,2^80} (thorough: + 7, 2^64 for n<=3; quick: for n=4 the vectors up to renaming of validators) x every assignment to {A,B,none} x a validator outside the snapshot {absent,A,B} x every order of the evidence slice x proof families (4 for n<=3; n=4: error-proof, thorough + tx-proof without/with receipt). " +
 		"(b) VerifyGasEstimates: the same share vectors x every subset of submitting validators x outsider {absent,present} x every multiset of estimates of that size (1..4 quick, 1..5 thorough) over {1,2,3,2^32,2^63-1,2^63,2^63+1,2^64-2,2^64-1}, ascending and highest-first. " +
 		"(c) real application, 4 snapshot validators with stakes 2,3,5,5 (x10^6; 10 of 15 is exactly 2/3) + 1 bonded validator outside: every assignment of the 5 to {A,B,none} delivered as signed MsgAddEvidence txs (direct / first the other value then this one / twice; ascending and descending order) on the reference-block and the turnstone queue, then CheckAndProcessAttestedMessages; every assignment of the 5 to estimates {none,3,2^63+1,2^64-1} as signed MsgAddMessageGasEstimates, then CheckAndProcessEstimatedMessages, then a second SetElectedGasEstimate and late estimates. " +
+		"(e) real application, same validators: every sequence of up to 4 (thorough 5) steps over {v0..v4 submits estimate X or Y as a signed MsgAddMessageGasEstimates, consensus end-block functions} on the logic-call message, and over {v0..v4 submits evidence A or B as a signed MsgAddEvidence, end-block functions} on the reference-block message - so every re-submission pattern by the same validator (same value, different value, 2..5 times, before and after the election, interleaved with others); after every step the election / attestation is run on a fork and compared with the reference over DISTINCT submitters (one value per submitter; latest evidence per submitter). " +
 		"(d) every ordered pair of different evidence values from a small separator-aware alphabet: outsider supplies y first, all snapshot validators supply x."
 	r.Assumptions = []string{
 		"2/3 is read as 3*sum >= 2*total on the snapshot's shares (exactly 2/3 suffices)",
@@ -1232,6 +1584,7 @@ func run(r *report.Run, shard, nshards int, replayFile string) {
 		"median of an even count = mean of the two middle values rounded down",
 		"at the libcons level each validator appears at most once in the slice (AddEvidence / AddGasEstimate guarantee it; (c) checks that guarantee through real transactions)",
 		"identical evidence (d) = equal proto messages of the same type",
+		"(e) an elected estimate must be the median over one accepted value per distinct submitter (any of the values that validator got accepted, should a re-submission be accepted); a refused re-submission is fine",
 	}
 	if replayFile != "" {
 		if shard == 0 {
@@ -1250,6 +1603,9 @@ func run(r *report.Run, shard, nshards int, replayFile string) {
 		in.partCEvidence()
 		in.partCEstimates()
 		in.partCIdentity()
+		te := cpuSeconds()
+		in.partE()
+		c.cnt["cpu_s_part_e"] = cpuSeconds() - te
 	}
 	t1 := cpuSeconds()
 	c.cnt["cpu_s_part_c_d"] = t1 - t0
@@ -1330,6 +1686,15 @@ func (c *checker) replay(w *world.World, file string) {
 		} else {
 			in.runEvidence(cs)
 		}
+	case "e":
+		var cs caseE
+		_ = json.Unmarshal(v.Replay, &cs)
+		in, err := c.setupInteg(w)
+		if err != nil {
+			fmt.Fprintln(os.Stderr, err)
+			os.Exit(2)
+		}
+		in.replaySeq(cs)
 	case "d":
 		// the pair is identified by its description; re-run the (small) part
 		c.partD()
